@@ -331,7 +331,7 @@ func (e *Exec) freshShape(old Value, hint string) Value {
 		}
 		return n
 	case *SoAV:
-		n := &SoAV{}
+		n := &SoAV{Str: o.Str}
 		for _, fv := range o.F {
 			n.F = append(n.F, e.freshShape(fv, hint))
 		}
